@@ -22,7 +22,7 @@ def updateConfOp (j : Json) : Except String Json := do
   let d ← field j "default" >>= dictOfJson
   let u ← field j "user" >>= dictOfJson
   let fl ← flagsOfJson (fieldD j "flags" (mkObj []))
-  return resToJson (fun r => jvalToJson (.obj r)) (updateConf fl.mergeOnlyDicts d u)
+  return resToJson (fun r => jvalToJson (.obj r)) (updateConf fl.strictMerge d u)
 
 /-- what the documentation says of each key of a step configuration given directly to the class
     (no `update_conf` rewrite happens at that level); a multiscale step refuses disparity grids -/
